@@ -1542,6 +1542,9 @@ func (ex *Exec) copyOp(dst SliceV, src Value) Value {
 	// n = min(len(dst), len(src))
 	n := ex.tt.Ite(ex.cmpInt("<", sl, dst.len, true), sl, dst.len)
 	if !n.isConst {
+		if r, ok := ex.symCopy(dst, src, n); ok {
+			return r
+		}
 		n = ex.concretize(n, "copy length")
 	}
 	k := ex.termInt64(n)
